@@ -11,6 +11,9 @@ requests (floats as IEEE bit patterns, arrays row-major as `re im re im …`):
   czt2  <dir> m n M N K L Qy Qx sx sy <2mn floats>      Bluestein pipeline; iczt = conj ∘ czt ∘ conj when dir = -1
   fft2  <dir> m n M N <2mn floats>                      pad to (M,N) + ifftshift/fft2(ortho)/fftshift
   cztglue n M L                                          the nine integers of the index glue
+  cztbasis n M L alpha s                                 h (L values), b (n values), a (M values) of `_prepare_czt_basis`
+  cache nf  (C | K v1 … v_nf)*                           executor cache state machine with nf key fields (string values):
+                                                         per op `m:<size>` (miss), `h:<size>` (hit) or `c:0` (clear)
 reply: 2MN floats (row-major re im), or integers
 -/
 
@@ -29,6 +32,24 @@ def parseArr (m n : Nat) (l : List Float) : Option (Array (Array (Cx Float))) :=
 def fmtArr (M N : Nat) (f : Nat → Nat → Cx Float) : String :=
   " ".intercalate ((List.range M).flatMap fun k => (List.range N).flatMap fun l =>
     let z := f k l; [fmtFloat z.re, fmtFloat z.im])
+
+def fmtVec (n : Nat) (f : Nat → Cx Float) : String :=
+  " ".intercalate ((List.range n).flatMap fun k => let z := f k; [fmtFloat z.re, fmtFloat z.im])
+
+/-- run the cache model on a token stream; `nf` key fields named "0", "1", … -/
+partial def cacheRun (nf : Nat) (x : Exec String Nat) (c : Cache String Nat) (toks : List String) (acc : List String) :
+    Option (List String) :=
+  match toks with
+  | [] => some acc.reverse
+  | "C" :: rest => cacheRun nf x (runOps x c [Op.clear]) rest ("c:0" :: acc)
+  | "K" :: rest =>
+    if rest.length < nf then none else
+      let vals := (rest.take nf).toArray
+      let st : St String := fun name => vals.getD name.toNat! ""
+      let before := c.length
+      let c' := (callStep x c st).2
+      cacheRun nf x c' (rest.drop nf) ((if c'.length = before then s!"h:{c'.length}" else s!"m:{c'.length}") :: acc)
+  | _ => none
 
 def step (t : List String) : String :=
   match t with
@@ -80,6 +101,20 @@ def step (t : List String) : String :=
       let g := cztGlue n M L
       s!"{g.start} {g.j1Lo} {g.h1Lo} {g.h1Hi} {g.j2Lo} {g.h2Lo} {g.h2Hi} {g.zLo} {g.zHi}"
     | _, _, _ => "bad-op"
+  | ["cztbasis", n, M, L, al, sh] =>
+    match n.toNat?, M.toNat?, L.toNat?, parseFloatBits? al, parseFloatBits? sh with
+    | some n, some M, some L, some α, some s =>
+      fmtVec L (cztH eFwd (cztGlue n M L) α) ++ " " ++ fmtVec n (cztB eFwd nrmF n α s) ++ " " ++ fmtVec M (cztA eFwd M α s)
+    | _, _, _, _, _ => "bad-op"
+  | "cache" :: nf :: toks =>
+    match nf.toNat? with
+    | some nf =>
+      let fields := (List.range nf).map toString
+      let x : Exec String Nat := { keyFields := fields, buildReads := fields, build := fun l => l.length }
+      match cacheRun nf x [] toks [] with
+      | some out => " ".intercalate out
+      | none => "bad-op"
+    | none => "bad-op"
   | _ => "bad-op"
 
 def main : IO Unit := mainLoop step
